@@ -262,12 +262,12 @@ def split_trace(path, shards, workdir, max_lines=1500):
 def validate_trace(trace_spec, trace_cfg, trace_file, workdir, max_lines=1500, parallel=None):
     """Trace validation in monitor+strict mode.  Returns dict with fails
     [(global_line, [clauses])], exercised {name: count}, drift, lines."""
-    parallel = parallel or max(1, NCPU - 2)
+    parallel = parallel or max(1, min(10, NCPU - 2))
     shards = split_trace(trace_file, parallel, workdir, max_lines)
 
     def one(sh):
         fn, first = sh
-        rc, out = run_tlc(workdir, trace_spec, trace_cfg, workers=1, heap="3g",
+        rc, out = run_tlc(workdir, trace_spec, trace_cfg, workers=1, heap="1536m",
                           env={"TRACE_FILE": fn}, timeout=3600, stack="64m")
         return fn, first, rc, out
 
